@@ -23,6 +23,7 @@ VERIF = os.path.dirname(HERE)
 sys.path.insert(0, HERE)
 import verus_be  # noqa: E402
 import kani_be   # noqa: E402
+import kanix_be  # noqa: E402
 
 REPO = os.environ.get("VERIF_REPO", "/repo")
 SCRATCH = os.environ.get("VERIF_SCRATCH", "/var/tmp/verif-mos")
@@ -74,6 +75,8 @@ def run_unit(u, snap, work, tier):
     try:
         if u["backend"] == "verus":
             return verus_be.run_unit(u, snap, os.path.join(work, "verus"), timeout=int(u.get("timeout", 600)))
+        elif u["backend"] == "kanix":
+            return kanix_be.run_unit(u, snap, os.path.join(work, "kanix"), tier)
         elif u["backend"] == "kani":
             return kani_be.run_unit(u, snap, os.path.join(work, "kani-" + u["name"]), tier)
         raise RuntimeError("unknown backend " + u["backend"])
@@ -92,7 +95,7 @@ def decide(prop, tier, seed):
     snapshot(snap)
     results = []
     # Kani units are heavy (they parallelise internally); run them one after another, Verus units together
-    vunits = [u for u in units.values() if u["backend"] == "verus"]
+    vunits = [u for u in units.values() if u["backend"] in ("verus", "kanix")]
     kunits = [u for u in units.values() if u["backend"] == "kani"]
     with cf.ThreadPoolExecutor(max_workers=8) as ex:
         futs = [ex.submit(run_unit, u, snap, work, tier) for u in vunits]
@@ -212,6 +215,7 @@ def decide(prop, tier, seed):
     if not os.environ.get("VERIF_KEEP"):
         shutil.rmtree(snap, ignore_errors=True)
         shutil.rmtree(os.path.join(work, "verus"), ignore_errors=True)
+        shutil.rmtree(os.path.join(work, "kanix"), ignore_errors=True)
     if lines:
         for l in lines:
             print(l)
